@@ -673,7 +673,8 @@ void GridSequence::setAnisotropicRefinement(TypeDepth type, int min_growth, int 
     int level = 0;
     do{
         updateGrid(++level, type, weights, level_limits);
-    }while(getNumNeeded() < min_growth);
+    }while((getNumNeeded() < min_growth)
+           && !MultiIndexManipulations::isLimitsBoxFull(level_limits, {&points, &needed}));
 }
 void GridSequence::setSurplusRefinement(double tolerance, int output, const std::vector<int> &level_limits){
     clearRefinement();
